@@ -257,6 +257,10 @@ def _mk():
     add("sq_plus_T", "{0} * {0} + {0}.T", cond="a0.ndim==2 and a0.shape[0]==a0.shape[1]", fam="routine", rewrite=False)
     add("where_gt_T", "{m}.where({0} > {0}.T, {0}, {0}.T)", cond="a0.ndim==2 and a0.shape[0]==a0.shape[1]", fam="routine", rewrite=False)
     add("sub_T_mul", "({0} - {0}.T) * {0}", cond="a0.ndim==2 and a0.shape[0]==a0.shape[1]", fam="routine", rewrite=False)
+    # an operand of fixed known length combined with an array whose length may be unknown
+    for _k in (1, 2, 3, 4):
+        add(f"plus_np_len{_k}", f"{{0}} + np.arange({_k}.0) * 100", cond=f"a0.ndim==1 and a0.shape[0]=={_k}", fam="elemwise", rewrite=False)
+        add(f"plus_da_len{_k}", f"{{0}} + {{m}}.asarray(np.arange({_k}.0) * 100)", cond=f"a0.ndim==1 and a0.shape[0]=={_k}", fam="elemwise", rewrite=False)
     add("isin", "{m}.isin({0}, [11, 13, 15])", fam="routine", rewrite=False)
     add("round", "{m}.round({0} / 3, 1)", exact=False, fam="routine", rewrite=False)
     add("tril", "{m}.tril({0})", cond=D2, fam="routine", rewrite=False)
